@@ -49,11 +49,11 @@ const (
 
 	c03Variants = 8
 
-	// c03AssertQuiescentRetry turns the quiescent "exact retry of an acknowledged
-	// command must be answered" observation into a violation. It is off because
-	// the designed C03 oracle treats every error return as legal (safety only);
-	// the observation is always counted in evidence.
-	c03AssertQuiescentRetry = false
+	// c03QuiescentAttempts is how often a quiescent exact retry (or new command)
+	// is repeated before its rejection is judged, so that a transient
+	// backpressure (background writes of an earlier cancelled call still
+	// draining) cannot fail it.
+	c03QuiescentAttempts = 4
 )
 
 type c03In struct {
@@ -446,6 +446,86 @@ func (h *c03Hist) commit(client int, op c03PlanOp, phase string) c03Out {
 	}).(c03Out)
 }
 
+// c03WedgeClass names, from the recorded history of channel c (main phase),
+// what preceded a quiescent rejection. Only calls made after the latest
+// successful Install of the channel matter (Install resets the sequencer).
+func c03WedgeClass(ops []verifkit.Op, c int) string {
+	var lastInstall, lastInstallRet int64
+	var commits []verifkit.Op
+	for _, op := range ops {
+		in, out := op.Input.(c03In), op.Output.(c03Out)
+		if in.Chan != c {
+			continue
+		}
+		if in.Kind == c03KindInstall && out.OK && op.Return > lastInstallRet {
+			lastInstallRet, lastInstall = op.Return, op.Call
+		}
+		if in.Kind == c03KindCommit {
+			commits = append(commits, op)
+		}
+	}
+	ambiguousOnKnown, conflictingReuse := false, false
+	for i, op := range commits {
+		in, out := op.Input.(c03In), op.Output.(c03Out)
+		// calls that returned before the latest successful Install was even
+		// called cannot have touched the current sequencer state
+		if out.OK || op.Return < lastInstall || c03Definite(out.Class) {
+			continue
+		}
+		for j, other := range commits {
+			oin, oout := other.Input.(c03In), other.Output.(c03Out)
+			if i == j || oin.Cmd != in.Cmd || other.Call >= op.Return || (!oout.OK && c03Definite(oout.Class)) {
+				continue
+			}
+			// "other" is another attempt of the same command id that may have
+			// reached the log before this one finished
+			if out.Class == "log_conflict" {
+				if oout.OK && oin.Hash != in.Hash {
+					conflictingReuse = true // different-content reuse, correctly refused
+				}
+			} else {
+				// an attempt on a command id the log may already hold (not answerable
+				// from the pending slot) ended without a definite outcome
+				ambiguousOnKnown = true
+			}
+		}
+	}
+	switch {
+	case ambiguousOnKnown:
+		return "after-ambiguous-round-on-evicted-command"
+	case conflictingReuse:
+		return "after-conflicting-reuse"
+	}
+	return "other"
+}
+
+var (
+	c03KeepMu   sync.Mutex
+	c03Kept     = map[string]int{}
+	c03Smallest = map[string]map[string]any{} // per signature: shortest single-client witness
+	c03SmallLen = map[string]int{}
+)
+
+// c03Keep records a violation, keeping at most two witnesses per signature
+// (further occurrences are counted), and remembers the shortest single-client
+// history per signature for the evidence notes.
+func c03Keep(r *verifkit.Run, sig string, clients, histLen int, witness map[string]any) {
+	c03KeepMu.Lock()
+	n := c03Kept[sig]
+	c03Kept[sig] = n + 1
+	if clients == 1 {
+		if l, ok := c03SmallLen[sig]; !ok || histLen < l {
+			c03SmallLen[sig] = histLen
+			c03Smallest[sig] = witness
+		}
+	}
+	c03KeepMu.Unlock()
+	r.Count("violation_occurrences."+sig, 1)
+	if n < 2 {
+		r.Violation(sig, witness)
+	}
+}
+
 type c03StoreView struct {
 	LEO   uint64
 	Found map[int]c03Found // by cmd
@@ -463,19 +543,32 @@ func c03RunCase(r *verifkit.Run, caseIdx int) {
 	caseSeed := rng.Uint64()
 	faults := &c03Faults{seed: rng.Uint64()}
 	// fault intensity profile
-	switch rng.IntN(4) {
-	case 0: // calm
+	clean := false
+	switch rng.IntN(6) {
+	case 0, 1: // clean: no fault of any kind and no caller deadlines
+		clean = true
+		for cl := range plan {
+			for i := range plan[cl] {
+				plan[cl][i].CtxMicros = 0
+			}
+		}
+	case 2: // calm
 		faults.linkDelay, faults.localDelay = 100, 100
-	case 1:
+	case 3:
 		faults.linkDrop, faults.linkLose, faults.linkDelay = 40, 60, 200
 		faults.localFail, faults.localLose, faults.localDelay = 20, 30, 150
-	case 2:
+	case 4:
 		faults.linkDrop, faults.linkLose, faults.linkDelay = 100, 120, 300
 		faults.localFail, faults.localLose, faults.localDelay = 50, 60, 200
-	case 3: // lost responses only
+	case 5: // lost responses only
 		faults.linkLose, faults.localLose, faults.linkDelay = 150, 80, 100
 	}
-	desc := fmt.Sprintf("chan=%d clients=%d retained=%d ops=%d db=%v reinstalls=%v faults=%d/%d/%d/%d", p.nChan, p.nClients, p.maxRetained, p.totalOps, p.messageDB, p.reinstalls, faults.linkDrop, faults.linkLose, faults.localFail, faults.localLose)
+	// Scripted tail (client 0): a different-content reuse of the oldest command
+	// of channel 0 (by then usually evicted from the retained cache, or issued
+	// before a restart); the quiescent phase then retries it exactly and issues a
+	// new command.
+	plan[0] = append(plan[0], c03PlanOp{Kind: c03PlanCommit, Chan: 0, Cmd: 0, Variant: 1 + rng.IntN(c03Variants)})
+	desc := fmt.Sprintf("chan=%d clients=%d retained=%d ops=%d db=%v reinstalls=%v clean=%v faults=%d/%d/%d/%d", p.nChan, p.nClients, p.maxRetained, p.totalOps, p.messageDB, p.reinstalls, clean, faults.linkDrop, faults.linkLose, faults.localFail, faults.localLose)
 	r.BeginCase(caseIdx, desc)
 
 	dbDir := ""
@@ -571,6 +664,24 @@ func c03RunCase(r *verifkit.Run, caseIdx int) {
 			}
 		}
 	}
+	variantsTried := map[ackKey]map[int]bool{} // contents ever attempted without a definite rejection
+	for _, op := range ops {
+		in, out := op.Input.(c03In), op.Output.(c03Out)
+		// only outcomes that can leave a sealed proposal pending
+		if in.Kind != c03KindCommit || out.OK || c03Definite(out.Class) || out.Class == "log_conflict" {
+			continue
+		}
+		k := varKey{in.Chan, in.Cmd, in.Variant}
+		if variantsTried[ackKey{k.c, k.cmd}] == nil {
+			variantsTried[ackKey{k.c, k.cmd}] = map[int]bool{}
+		}
+		variantsTried[ackKey{k.c, k.cmd}][k.v] = true
+	}
+	// pendingNeverDurable[c]: a brand-new command (one content ever) still cannot
+	// be made durable with every fault off. Its proposal is legitimately pending
+	// and blocks the channel by design; why it cannot reach a quorum is a log
+	// divergence question (C01/C02), so the channel is not judged here.
+	pendingNeverDurable := map[int]string{}
 	for round := 0; round < 2; round++ {
 		for _, k := range ambOrder {
 			if _, ok := acked[ackKey{k.c, k.cmd}]; ok {
@@ -578,6 +689,9 @@ func c03RunCase(r *verifkit.Run, caseIdx int) {
 			}
 			out := h.commit(0, c03PlanOp{Kind: c03PlanCommit, Chan: k.c, Cmd: k.cmd, Variant: k.v}, "final-unacked")
 			r.Count("final_unacked_retry."+out.Class, 1)
+			if round == 1 && !out.OK && !c03Definite(out.Class) && out.Class != "log_conflict" && len(variantsTried[ackKey{k.c, k.cmd}]) == 1 {
+				pendingNeverDurable[k.c] = fmt.Sprintf("cmd=%d v=%d -> %s", k.cmd, k.v, out.Class)
+			}
 			if out.OK {
 				acked[ackKey{k.c, k.cmd}] = c03In{Chan: k.c, Cmd: k.cmd, Variant: k.v, Term: cluster.leader.Load().auth[k.c].LeaderTerm}
 			}
@@ -593,30 +707,82 @@ func c03RunCase(r *verifkit.Run, caseIdx int) {
 		}
 		return keys[i].cmd < keys[j].cmd
 	})
+	// Judged clause: "retrying the same command with identical content returns
+	// the same range ... also after restart or cache eviction". At this point
+	// every fault is off, every client call has returned, legitimately pending
+	// proposals were retried above; for a channel that is installed and ready
+	// under the authority of the acknowledgement, an exact retry that is still
+	// rejected after c03QuiescentAttempts attempts contradicts the clause.
 	wedged := map[int][]string{}
 	for _, k := range keys {
 		in := acked[k]
-		out := h.commit(0, c03PlanOp{Kind: c03PlanCommit, Chan: k.c, Cmd: k.cmd, Variant: in.Variant}, "final")
 		sameAuth := in.Term == cluster.leader.Load().auth[k.c].LeaderTerm && h.ready[k.c].Load()
+		var out c03Out
+		classes := ""
+		for attempt := 0; attempt < c03QuiescentAttempts; attempt++ {
+			if attempt > 0 {
+				time.Sleep(2 * time.Millisecond)
+			}
+			out = h.commit(0, c03PlanOp{Kind: c03PlanCommit, Chan: k.c, Cmd: k.cmd, Variant: in.Variant}, "final")
+			classes += out.Class + " "
+			if out.OK || !sameAuth {
+				break
+			}
+		}
 		if sameAuth {
 			r.Count("final_retry_same_authority."+out.Class, 1)
 			if !out.OK {
-				wedged[k.c] = append(wedged[k.c], fmt.Sprintf("cmd=%d -> %s", k.cmd, out.Class))
+				wedged[k.c] = append(wedged[k.c], fmt.Sprintf("cmd=%d -> %s", k.cmd, strings.TrimSpace(classes)))
 			}
 		} else {
 			r.Count("final_retry_other_authority_or_not_installed."+out.Class, 1)
 		}
 	}
-	// Liveness-flavoured observation (NOT part of the C03 oracle, whose model
-	// allows any call to fail): with every fault off, the channel installed and
-	// the authority unchanged since the acknowledgement, an exact retry of an
-	// acknowledged command is still rejected. See c03AssertQuiescentRetry.
-	for c, list := range wedged {
-		r.Count("channels_with_quiescent_exact_retry_rejected", 1)
-		if c03AssertQuiescentRetry {
-			r.Violation("quiescent-exact-retry-of-acknowledged-command-rejected", map[string]any{"case": caseIdx, "desc": desc, "channel": c, "rejected": list, "history": c03Compact(h.rec.Ops(), c)})
-		} else if os.Getenv("C03_DEBUG") != "" {
-			fmt.Fprintf(os.Stderr, "C03WEDGE case=%d ch=%d rejected=%v\nhistory=%s\n", caseIdx, c, list, strings.Join(c03Compact(h.rec.Ops(), c), "\n  "))
+	// one new command per ready channel
+	newBlocked := map[int]string{}
+	for c := range h.chans {
+		if !h.ready[c].Load() {
+			continue
+		}
+		classes, allBackpressured := "", true
+		for attempt := 0; attempt < c03QuiescentAttempts; attempt++ {
+			if attempt > 0 {
+				time.Sleep(2 * time.Millisecond)
+			}
+			out := h.commit(0, c03PlanOp{Kind: c03PlanCommit, Chan: c, Cmd: 60000 + c}, "final-new")
+			classes += out.Class + " "
+			if out.Class != "backpressured" {
+				allBackpressured = false
+				r.Count("final_new_command."+out.Class, 1)
+				break
+			}
+		}
+		if allBackpressured {
+			r.Count("final_new_command.backpressured", 1)
+			newBlocked[c] = strings.TrimSpace(classes)
+		}
+	}
+	for c := range h.chans {
+		list, blocked := wedged[c], newBlocked[c]
+		if len(list) == 0 && blocked == "" {
+			continue
+		}
+		if why, skip := pendingNeverDurable[c]; skip {
+			r.Count("quiescent_judgement_skipped.new_command_pending_never_durable", 1)
+			if os.Getenv("C03_DEBUG") != "" {
+				fmt.Fprintf(os.Stderr, "C03SKIP case=%d ch=%d %s\n", caseIdx, c, why)
+			}
+			continue
+		}
+		class := c03WedgeClass(ops, c)
+		hist := c03Compact(h.rec.Ops(), c)
+		if len(list) > 0 {
+			r.Count("channels_with_quiescent_exact_retry_rejected."+class, 1)
+			c03Keep(r, "quiescent-exact-retry-rejected:"+class, p.nClients, len(hist), map[string]any{"case": caseIdx, "desc": desc, "channel": c, "rejected_after_attempts": list, "new_command": blocked, "history": hist})
+		}
+		if blocked != "" {
+			r.Count("channels_with_quiescent_new_command_backpressured."+class, 1)
+			c03Keep(r, "quiescent-new-command-backpressured:"+class, p.nClients, len(hist), map[string]any{"case": caseIdx, "desc": desc, "channel": c, "new_command_attempts": blocked, "exact_retries_rejected": list, "history": hist})
 		}
 	}
 
@@ -1078,6 +1244,7 @@ func TestVerifC03(t *testing.T) {
 	r.Assume("Link faults are switched off while Install runs (unreachable voters during Install are C01's subject).")
 	r.Assume("Error classes backpressured/not_ready/stale_meta/write_fenced/invalid_config are admission rejections returned by quorumLog.Commit before a proposal is sealed; they are modelled as having no effect. All other errors may have the effect of one fresh append at any later time.")
 	r.Assume("Retries under a changed authority may be rejected; if acknowledged they must return the stored range.")
+	r.Assume("Quiescent judgement: all faults off, all client calls returned, every (command, content) that only ever failed ambiguously retried twice first (a legitimately pending proposal blocks its channel by design until its exact retry), channel installed and ready under the authority of the acknowledgement; an exact retry (or a brand-new command: backpressure only) still rejected after 4 attempts 2 ms apart is a violation, classified from the channel's history since its latest Install.")
 	n := r.N(260, 2200)
 	for i := 0; i < n; i++ {
 		if r.Skip(i) {
@@ -1097,6 +1264,11 @@ func TestVerifC03(t *testing.T) {
 			return
 		}
 	}
+	c03KeepMu.Lock()
+	for sig, w := range c03Smallest {
+		r.Note("shortest_single_client_witness/"+sig, w)
+	}
+	c03KeepMu.Unlock()
 }
 
 func c03WatchdogDur() time.Duration {
